@@ -12,7 +12,7 @@ import (
 	"verif/harness/stat"
 )
 
-const C04Rule = "For every struct of the registry and generated value: (extras) well-formed unknown fields - tags not in the reader's schema, any of the 13 wire types, nested struct/list/map/simple-list to depth 5, STRING4, extended tags, payloads up to 70000 bytes - spliced wherever tag order admits at top level, inside nested struct members and inside struct-valued list/map elements (incl. after the last known member); (absent) one present optional member removed => its IDL default, one required member removed => error; (reuse) encoding A decoded into a struct, then encoding B into the same struct. Oracles: metamorphic decode(with extras)==decode(without) with identical success; exact skipping is observed through equality of all later members and a position sentinel for the block form. Non-trivial = >=1 unknown field of a compound wire type (MAP/LIST/STRUCT/SimpleList/STRING4 or extended tag) placed before a known member that is away from its default. Distinct = distinct (struct, mutated bytes)."
+const C04Rule = "For every struct of the registry and generated value: (extras) well-formed unknown fields - tags not in the reader's schema, any of the 13 wire types, nested struct/list/map/simple-list to depth 5, STRING4, extended tags, payloads up to 70000 bytes - spliced wherever tag order admits at top level, inside nested struct members and inside struct-valued list/map elements (incl. after the last known member); (absent) one present optional member removed => its IDL default, one required member removed => error, at top level and (absent-nested) inside nested struct members, struct-valued list elements and map keys/values at any depth, with a bias to the last-written required member of a nested struct; (reuse) encoding A decoded into a struct, then encoding B into the same struct. Oracles: metamorphic decode(with extras)==decode(without) with identical success; exact skipping is observed through equality of all later members and a position sentinel for the block form. Non-trivial = >=1 unknown field of a compound wire type (MAP/LIST/STRUCT/SimpleList/STRING4 or extended tag) placed before a known member that is away from its default. Distinct = distinct (struct, mutated bytes)."
 
 // C04Case
 //
@@ -21,12 +21,16 @@ const C04Rule = "For every struct of the registry and generated value: (extras) 
 //	Kind "reuse":   Val decoded first, then Mut (a second value's canonical encoding)
 type C04Case struct {
 	ValueCase
-	Kind     string `json:"kind"`
-	Mut      []byte `json:"mut"`
-	Member   int    `json:"member"`
-	NExtras  int    `json:"n_extras"`
-	Compound bool   `json:"compound_before_known"`
-	Detail   string `json:"detail"`
+	Kind   string `json:"kind"`
+	Mut    []byte `json:"mut"`
+	Member int    `json:"member"`
+	// Kind "absent-nested": member site #Site (pre-order over all struct bodies of the
+	// encoding) removed; ReqOmitted says whether that member is required
+	Site       int    `json:"site,omitempty"`
+	ReqOmitted bool   `json:"req_omitted,omitempty"`
+	NExtras    int    `json:"n_extras"`
+	Compound   bool   `json:"compound_before_known"`
+	Detail     string `json:"detail"`
 }
 
 // KnownReuseKey is the signature of the known finding D-reuse (DESIGN.md section 4).
@@ -155,7 +159,7 @@ func containsStruct(t *rc.Type) bool {
 }
 
 func (r *Registry) drawC04(rt *rapid.T) C04Case {
-	kind := rapid.SampledFrom([]string{"extras", "extras", "extras", "absent", "reuse"}).Draw(rt, "kind")
+	kind := rapid.SampledFrom([]string{"extras", "extras", "extras", "absent", "absent-nested", "reuse"}).Draw(rt, "kind")
 	vc := r.drawValueCase(rt, rc.Limits{MaxStr: 24, MaxElems: 4, BigStr: rapid.IntRange(0, 7).Draw(rt, "big") == 0})
 	st := r.Schema.Structs[vc.Struct]
 	sv, _, err := rc.DecodeStruct(st, vc.Val)
@@ -180,6 +184,44 @@ func (r *Registry) drawC04(rt *rapid.T) C04Case {
 		c.Member = sp.Index
 		c.Mut = append(append([]byte{}, enc.Buf[:sp.Start]...), enc.Buf[sp.End:]...)
 		c.Detail = fmt.Sprintf("member %s (tag %d, require=%v) removed", st.Fields[sp.Index].Name, st.Fields[sp.Index].Tag, st.Fields[sp.Index].Require)
+	case "absent-nested":
+		rec := rc.Enc{KeepDefaults: true, RecordMembers: true}
+		rec.StructBody(sv)
+		var nested, nestedReq, nestedReqLast []int
+		for i, m := range rec.Members {
+			if m.Depth >= 2 {
+				nested = append(nested, i+1)
+				if m.Field.Require {
+					nestedReq = append(nestedReq, i+1)
+					if m.Last {
+						nestedReqLast = append(nestedReqLast, i+1)
+					}
+				}
+			}
+		}
+		cand := nested
+		switch w := rapid.IntRange(0, 3).Draw(rt, "which"); {
+		case w == 0 && len(nestedReqLast) > 0:
+			cand = nestedReqLast
+		case w == 1 && len(nestedReq) > 0:
+			cand = nestedReq
+		}
+		if len(cand) == 0 {
+			for i := range rec.Members {
+				cand = append(cand, i+1)
+			}
+		}
+		if len(cand) == 0 {
+			c.Kind, c.Mut, c.Detail = "extras", rec.Buf, "empty struct"
+			return c
+		}
+		c.Site = cand[rapid.IntRange(0, len(cand)-1).Draw(rt, "site")]
+		m := rec.Members[c.Site-1]
+		c.ReqOmitted = m.Field.Require
+		enc := rc.Enc{KeepDefaults: true, OmitSite: c.Site}
+		enc.StructBody(sv)
+		c.Mut = enc.Buf
+		c.Detail = fmt.Sprintf("member %s (tag %d, require=%v, last written=%v) of a %s at nesting depth %d removed", m.Field.Name, m.Field.Tag, m.Field.Require, m.Last, m.Struct, m.Depth)
 	case "reuse":
 		b := rc.DrawStruct(rt, st, rc.Limits{MaxStr: 16, MaxElems: 3}, 0, "b")
 		if !assumeReuseFixed() {
@@ -266,6 +308,24 @@ func (r *Registry) RunC04Case(c C04Case) *stat.Failure {
 			want := &rc.SV{St: sv.St, Fields: append([]any{}, sv.Fields...)}
 			want.Fields[c.Member] = rc.FieldDefault(fld)
 			if d := rc.Diff(t, want, got, c.Struct); d != "" {
+				return stat.Failf("absent-optional-not-default", "%s: %s: expected its IDL default: %s", c.Struct, c.Detail, d)
+			}
+		case "absent-nested":
+			ref, _, rerr := rc.DecodeStruct(t.Struct, c.Mut)
+			if (rerr != nil) != c.ReqOmitted {
+				return stat.Failf("harness-failure", "reference decoder on %s: err=%v but required-omitted=%v", c.Detail, rerr, c.ReqOmitted)
+			}
+			got, err := r.decodeImpl(c.Struct, c.Mut)
+			if c.ReqOmitted {
+				if err == nil {
+					return stat.Failf("absent-required-accepted", "%s: %s but decoding succeeded: %v", c.Struct, c.Detail, show(got))
+				}
+				return nil
+			}
+			if err != nil {
+				return stat.Failf("absent-optional-rejected", "%s: %s and decoding fails: %v", c.Struct, c.Detail, err)
+			}
+			if d := rc.Diff(t, ref, got, c.Struct); d != "" {
 				return stat.Failf("absent-optional-not-default", "%s: %s: expected its IDL default: %s", c.Struct, c.Detail, d)
 			}
 		case "reuse":
